@@ -129,4 +129,11 @@ CONTRACT(PRE_dt_dtdiff(tgttyp, d1, d2), POST_dt_dtdiff(RV, tgttyp, d1, d2));
 #define POST_dt_dtcmp(ret, d1, d2) ((ret) == (DAYCMP((d1).d, (d2).d) != 0 ? DAYCMP((d1).d, (d2).d) : DCMP3(TKEY((d1).t), TKEY((d2).t))))
 int dt_dtcmp(struct dt_dt_s d1, struct dt_dt_s d2)
 CONTRACT(PRE_dt_dtcmp(d1, d2), POST_dt_dtcmp(RV, d1, d2));
+/* range test through the 4x4 table: 1 iff d1 <= d <= d2 in the order dt_dtcmp is proved to compute, else 0
+ * (under PRE_dt_dtcmp the comparison never answers -2, so the "not comparable" row/column of the table is not entered) */
+#define S_DTCMP(a, b) (DAYCMP((a).d, (b).d) != 0 ? DAYCMP((a).d, (b).d) : DCMP3(TKEY((a).t), TKEY((b).t)))
+#define PRE_dt_dt_in_range_p(d, d1, d2) (PRE_dt_dtcmp(d, d1) && PRE_dt_dtcmp(d, d2))
+#define POST_dt_dt_in_range_p(ret, d, d1, d2) ((ret) == ((S_DTCMP(d, d1) >= 0 && S_DTCMP(d, d2) <= 0) ? 1 : 0))
+int dt_dt_in_range_p(struct dt_dt_s d, struct dt_dt_s d1, struct dt_dt_s d2)
+CONTRACT(PRE_dt_dt_in_range_p(d, d1, d2), POST_dt_dt_in_range_p(RV, d, d1, d2));
 #endif
